@@ -332,6 +332,19 @@ func registerIOModels() {
 	}
 	libModels["strings.HasPrefix"] = &libModel{desc: "HasPrefix(s, p) <=> len(p) <= len(s) and s[:len(p)] == p", apply: hasFix(true)}
 	libModels["strings.HasSuffix"] = &libModel{desc: "HasSuffix(s, p) <=> len(p) <= len(s) and s[len(s)-len(p):] == p", apply: hasFix(false)}
+	trimFix := func(prefix bool) func(c *FnCtx, st *State, in ssa.Instruction, cc *ssa.CallCommon, args []Val) Val {
+		return func(c *FnCtx, st *State, in ssa.Instruction, cc *ssa.CallCommon, args []Val) Val {
+			s, p := args[0].(VStr), args[1].(VStr)
+			has := hasFix(prefix)(c, st, in, cc, args).(VBool).T
+			n := c.define("trimfix.len", sInt, ite(has, minus(s.Len, p.Len), s.Len))
+			if prefix {
+				return VStr{s.Arr, c.define("trimfix.off", sInt, ite(has, plus(s.Off, p.Len), s.Off)), n}
+			}
+			return VStr{s.Arr, s.Off, n}
+		}
+	}
+	libModels["strings.TrimPrefix"] = &libModel{desc: "TrimPrefix(s, p) is s[len(p):] when HasPrefix(s, p) and s otherwise", apply: trimFix(true)}
+	libModels["strings.TrimSuffix"] = &libModel{desc: "TrimSuffix(s, p) is s[:len(s)-len(p)] when HasSuffix(s, p) and s otherwise", apply: trimFix(false)}
 	// protoreflect: descriptors are opaque objects (identity = interface payload); fdIsList / fdIsMap /
 	// fdMsg are uninterpreted functions of that identity. A protoreflect.Value carries its kind in the
 	// uninterpreted valkind(v): 1 message, 2 list, 3 map.
